@@ -12,12 +12,12 @@ use std::{
 use darklua_core::{Resources, WorkerTree};
 
 use crate::{
-    c11::{io_signature, quoted_paths},
+    c11::io_signature,
     exec::{self, Outcome, Store},
     gen,
     model::{Backend, Body, C10Scenario, ConfigSource, FsEntry, Layer, Op, OptSpec, Violation},
     rng::hash_bytes,
-    simfs::{FaultRule, OpKind, OpRec, Outcome as IoOutcome, SimFs, Snapshot},
+    simfs::{FaultRule, OpKind, OpRec, SimFs, Snapshot},
 };
 
 const P: &str = "C10";
@@ -198,12 +198,27 @@ fn summarize(log: &[OpRec]) -> PassRecord {
     PassRecord { writes, removes }
 }
 
-/// Sources named (first quoted path) by error texts.
-fn error_sources(errors: &[String]) -> BTreeSet<String> {
-    errors
-        .iter()
-        .filter_map(|text| quoted_paths(text).first().map(|p| gen::normalize(p)))
-        .collect()
+/// The Lua input file each error text mentions first (however the message quotes it).
+fn error_sources(errors: &[String], inputs: &Snapshot) -> BTreeSet<String> {
+    let mut out = BTreeSet::new();
+    for text in errors {
+        let mut best: Option<((usize, isize), String)> = None;
+        for (path, content) in inputs {
+            if content.is_none() || !gen::is_lua(path) {
+                continue;
+            }
+            if let Some(pos) = crate::c11::mention(text, path) {
+                let key = (pos, -(path.len() as isize));
+                if best.as_ref().map(|(k, _)| key < *k).unwrap_or(true) {
+                    best = Some((key, path.clone()));
+                }
+            }
+        }
+        if let Some((_, path)) = best {
+            out.insert(path);
+        }
+    }
+    out
 }
 
 pub fn check(scn: &C10Scenario, stats: &mut RunStats) -> Result<Vec<Violation>, String> {
@@ -432,7 +447,7 @@ impl Oracle {
         }
         let fresh_errors = fresh_outcome.errors().to_vec();
         let inc_errors = outcome.errors().to_vec();
-        let failing = error_sources(&fresh_errors);
+        let failing = error_sources(&fresh_errors, &inputs);
         stats.relaxed_sources += failing.len() as u64;
         // mirror paths of failing sources (relaxed): any output path attempted for them
         // in the fresh run is unknown, so derive from layout: dir input -> mirror
